@@ -439,9 +439,10 @@ theorem fx_stop {s s' : State} {id code : Nat} {b : Bool} (ka : KeysAlloc s)
        first
         | exact Or.inl f1
         | (have f3 := hv_creditAndQueue ‹State.creditAndQueue _ _ = some _›
+           have f2q := hv_queueMaxIf ‹State.queueMaxIf _ _ = some _›
            have hfr := ‹State.freeRecvIf _ _ _ = some _›
            have ff := fx_freeRecvIf_of hfr (hv_qss_put _ _ _ _ _) ha hp
-           exact RecvFx.pre (RecvFx.post ff f3) f1))
+           exact RecvFx.pre (RecvFx.post ff (f3.trans f2q)) f1))
 
 theorem fx_recvReceivedReset {s s' : State} {id : Nat} {r : Option (Option Nat)} (ka : KeysAlloc s)
     (h : s.recvReceivedReset id = some (s', r)) : RecvFx s s' id := by
